@@ -1207,6 +1207,9 @@ type headerBlock struct {
 	// between the block and the request they belong to.
 	trailers bool
 	final    bool
+	// interim says the block's status is a 1xx. Its fields are about that
+	// interim response (RFC 7231 6.2), not about the one the caller asked for.
+	interim bool
 }
 
 // open returns the bytes to decode for fr: what the previous frame of the block
@@ -1219,6 +1222,7 @@ func (hb *headerBlock) open(fr *FrameHeader) []byte {
 		hb.endStream = fr.Flags().Has(FlagEndStream)
 		hb.statusSeen = false
 		hb.final = false
+		hb.interim = false
 	}
 
 	b := append(hb.carry, fr.Body().(FrameWithHeaders).Headers()...)
@@ -2175,6 +2179,7 @@ func (c *Conn) readHeader(fr *FrameHeader, res *fasthttp.Response) error {
 			}
 
 			c.block.statusSeen = true
+			c.block.interim = n < 200
 
 			res.SetStatusCode(n)
 
@@ -2189,6 +2194,12 @@ func (c *Conn) readHeader(fr *FrameHeader, res *fasthttp.Response) error {
 
 		if isConnectionSpecific(hf.KeyBytes()) {
 			return c.skipFields(fr, b, errConnectionSpecific)
+		}
+
+		// Checked like any other field, and then left out: what a 103 says
+		// about itself is not part of the response that follows it.
+		if c.block.interim {
+			continue
 		}
 
 		if bytes.Equal(hf.KeyBytes(), StringContentLength) {
